@@ -3,7 +3,8 @@
    requests observed at five points:
      P1 head of master (memory path), then the driver commits and opens a new version,
      P2 the committed parent (store path), P3 the child (memory path), then the datastore is
-     closed and reopened, P4 the child (memory reloaded), P5 the parent (store path). *)
+     closed and reopened, P4 the child (memory reloaded), P5 the parent (store path); then the
+     child is modified and P6 reads the committed parent again (store path, must be unchanged). *)
 From DV Require Import Base.Prelude Model.NJ.
 Local Open Scope N_scope.
 
@@ -28,7 +29,8 @@ Record obsop := mkObs { ob_op : op; ob_cls : oclass; ob_back : list (N * option 
 Record c16case := mkCase {
   c_hist : list obsop;
   c_rx : list (bytes * option (list (bytes * bool)));   (* regexp oracle: pattern -> compiled? -> string -> match *)
-  c_reads : list (rreq * list rres);                     (* results at P1..P5 *)
+  c_reads : list (rreq * list rres);                     (* results at P1..P6 *)
+  c_tail : list obsop;    (* requests sent to the child after P5; P6 = the parent read once more *)
 }.
 
 Definition rx_of (tbl : list (bytes * option (list (bytes * bool)))) (pat : bytes) : option (bytes -> bool) :=
@@ -95,18 +97,24 @@ Fixpoint replay (V : variant) (s : state) (h : list obsop) : option state * bool
 Definition final_ops (s : state) : list op :=
   if st_locked s then [OpNewVersion] else [OpCommit; OpNewVersion].
 
-Definition points (V : variant) (rx : bytes -> option (bytes -> bool)) (s : state) (r : rreq) : list (option rres) :=
+(* the states at P1, P3 (= P2), P5 (= P4) and P6 *)
+Definition point_states (V : variant) (s : state) (tail : list obsop) : option (state * state * state * state * bool) :=
   match run V s (final_ops s) with
   | Ok s2 =>
-      let p1 := read_version rx V s 0 r in
-      let p2 := read_version rx V s2 1 r in
-      let p3 := read_version rx V s2 0 r in
       match reload V s2 with
-      | Ok s3 => [p1; p2; p3; read_version rx V s3 0 r; read_version rx V s3 1 r]
-      | _ => [p1; p2; p3; None; None]
+      | Ok s3 => match replay V s3 tail with
+                 | (Some s4, ok) => Some (s, s2, s3, s4, ok)
+                 | (None, _) => None
+                 end
+      | _ => None
       end
-  | _ => []
+  | _ => None
   end.
+Definition points (V : variant) (rx : bytes -> option (bytes -> bool)) (ps : state * state * state * state * bool)
+           (r : rreq) : list (option rres) :=
+  let '(s, s2, s3, s4, _) := ps in
+  [read_version rx V s 0 r; read_version rx V s2 1 r; read_version rx V s2 0 r;
+   read_version rx V s3 0 r; read_version rx V s3 1 r; read_version rx V s4 1 r].
 
 Fixpoint points_eqb (m : list (option rres)) (o : list rres) : bool :=
   match m, o with
@@ -118,7 +126,12 @@ Fixpoint points_eqb (m : list (option rres)) (o : list rres) : bool :=
 Definition model_ok_gen (V : variant) (c : c16case) : bool :=
   match replay V init_state (c_hist c) with
   | (Some s, ok) =>
-      ok && forallb (fun rr => points_eqb (points V (rx_of (c_rx c)) s (fst rr)) (snd rr)) (c_reads c)
+      match point_states V s (c_tail c) with
+      | Some ps =>
+          ok && (let '(_, _, _, _, okt) := ps in okt)
+          && forallb (fun rr => points_eqb (points V (rx_of (c_rx c)) ps (fst rr)) (snd rr)) (c_reads c)
+      | None => false
+      end
   | (None, ok) => ok
   end.
 
@@ -197,7 +210,7 @@ Fixpoint rules_walk (known : list (N * option obj)) (h : list obsop) : bool :=
   end.
 
 Definition spec_class (c : c16case) : nat :=
-  if existsb (fun ob => match ob_cls ob with OPanic => true | _ => false end) (c_hist c)
+  if existsb (fun ob => match ob_cls ob with OPanic => true | _ => false end) (c_hist c ++ c_tail c)
      || existsb (fun rr => existsb is_xpanic (snd rr)) (c_reads c) then 7%nat
   else if negb (rules_walk [] (c_hist c)) then 6%nat
   else
